@@ -110,15 +110,17 @@ class SpatialDimension(MoveDataMixin, Generic[T_co]):
         return SpatialDimension(z, y, x)
 
     # This function is mainly for type hinting and docstring
-    def apply_(self, function: Callable[[T], T] | None = None, **_) -> Self:
+    def apply_(self, function: Callable[[T], T] | None = None, **kwargs) -> Self:
         """Apply a function to each z, y, x (in-place).
 
         Parameters
         ----------
         function
             function to apply
+        kwargs
+            passed on to MoveDataMixin.apply_, e.g. the memo used to keep shared objects shared
         """
-        return super(SpatialDimension, self).apply_(function)
+        return super(SpatialDimension, self).apply_(function, **kwargs)
 
     # This function is mainly for type hinting and docstring
     def apply(self, function: Callable[[T], T] | None = None, **_) -> Self:
